@@ -1,3 +1,21 @@
+//go:build verif
+
+package generator
+
+// Contracts of generator functions (Layer G). Comment-only file: with or
+// without the `verif` build tag the compiled package is byte-identical.
+// goagvc (/verif/engine) parses the //@ lines and generates the verification
+// conditions from go/ssa of the functions named here.
+
+// ---- files.go ---------------------------------------------------------------
+
+// goEval(e): the value of a Go constant expression made of string literals and
+// `+` (Go specification, "String literals"); DESIGN.md §4.13, §6.
+
+//@ func encodeRawFileAsString(s string) string
+//@   option props=C13
+//@   option rule=quoting
+//@   ensures goEval(result) == s
 
 // ---- go_file.go -------------------------------------------------------------
 
